@@ -409,6 +409,20 @@ func txnSizeLimit(c *Ctx) bool {
 		}
 		return fmt.Sprint("ok ", cnt)
 	}
+	// many small documents in one operation (the limit of a badger transaction is also one of ENTRIES: about a tenth of the
+	// memtable size, 100 000 with the default options): 15 000 documents, well inside it, are accepted by every backend -
+	// on the badger store as Open(dir) configures it, too
+	{
+		a := outcome("bbolt", 15000, 16)
+		for _, be := range []string{"badger-mem", "badger-open"} {
+			c.Evals++
+			if b := outcome(be, 15000, 16); a != b {
+				c.Violation(&Replay{Stream: "txn-size", Case: []interface{}{J{"k": "txn-size", "documents": 15000, "bytes_each": 16, "backend": be}}, Expected: []string{"bbolt: " + a}, Actual: []string{be + ": " + b},
+					Note: "the backends disagree on one batch insert of 15000 small documents"})
+				return false
+			}
+		}
+	}
 	for _, sz := range [][2]int{{8, 64 * 1024}, {4, 512 * 1024}, {40, 512 * 1024}} {
 		a, b := outcome("bbolt", sz[0], sz[1]), outcome("badger-mem", sz[0], sz[1])
 		c.Evals++
